@@ -42,7 +42,7 @@ type CPPlan struct {
 	Rich        bool     `json:"rich_fs,omitempty"`
 }
 
-var cpSiteKinds = []string{"local-div", "idx-slice", "idx-string", "slice-bounds", "div", "mod", "nil-set", "nil-get", "nil-method", "nil-map", "nil-func", "panic", "native", "for-cond"}
+var cpSiteKinds = []string{"helper-div", "helper-attr", "local-div", "idx-slice", "idx-string", "slice-bounds", "div", "mod", "nil-set", "nil-get", "nil-method", "nil-map", "nil-func", "panic", "native", "for-cond"}
 
 type cpSite struct {
 	Func int
@@ -54,6 +54,7 @@ type cpSite struct {
 }
 
 type cpRendered struct {
+	HelperLine map[string]int // line of the single statement of each helper function
 	ML    map[int]bool // lines that open a multi-line call
 	Text  string
 	Sites map[int]cpSite
@@ -87,6 +88,12 @@ var nilM map[string]int
 var okM = map[string]int{"a": 1}
 var nilF func() int
 func okF() int { return 1 }
+func hdiv(a int, b int) int {
+	return a / b
+}
+func hattr(p *T) int {
+	return p.A
+}
 func selT(k int) *T {
 	if k == 1 {
 		return nilT
@@ -110,10 +117,18 @@ func selF(k int) func() int {
 // cpRender turns the structure into source text, one statement per line, and
 // records the line of every fault site.
 func cpRender(p *CPPlan) *cpRendered {
-	r := &cpRendered{Sites: map[int]cpSite{}, ML: map[int]bool{}}
+	r := &cpRendered{Sites: map[int]cpSite{}, ML: map[int]bool{}, HelperLine: map[string]int{}}
 	var b strings.Builder
 	b.WriteString(cpPrelude)
 	line := strings.Count(cpPrelude, "\n")
+	for i, l := range strings.Split(cpPrelude, "\n") {
+		switch strings.TrimSpace(l) {
+		case "return a / b":
+			r.HelperLine["main.hdiv"] = i + 1
+		case "return p.A":
+			r.HelperLine["main.hattr"] = i + 1
+		}
+	}
 	emit := func(s string) int {
 		line++
 		b.WriteString(s + "\n")
@@ -160,6 +175,11 @@ func cpRender(p *CPPlan) *cpRendered {
 				lamSeen = true
 				emit(ind + fmt.Sprintf("lam%d := func(a int) int { return a + %d }", s.N, s.N))
 				emit(ind + fmt.Sprintf("r = r + lam%d(1) - %d", s.N, s.N+1))
+			case "helper-div":
+				// the fault is raised by the first (fused) instruction of a helper function
+				site(fmt.Sprintf("r = r + hdiv(100, host.Den(%d))", id))
+			case "helper-attr":
+				site(fmt.Sprintf("r = r + hattr(selT(host.Flag(%d)))", id))
 			case "nil-set":
 				site(fmt.Sprintf("selT(host.Flag(%d)).A = 7", id))
 			case "nil-get":
@@ -292,7 +312,7 @@ func (crashpoint) Describe() core.EngineInfo {
 		Real:       []string{"goatlang compiler positions (newPos, peephole fusion), VM backtrace (mkFunc push/pop), error builder (btErr), via Load/Call/Eval"},
 		Stubs:      []string{"host.Idx/Den/Flag/Fail natives decide the fault instant; host.Enter/Leave/At keep the shadow stack", "SimDisk serves the program"},
 		Assumes:    []string{"one statement per line; call statements carry their own line number as an argument of host.At", "chains that cross a native re-entry (sort comparators) are not generated", "the activation entered by Call has no call-site line (position zero is skipped by the error builder)"},
-		ProbesWant: []string{"fault:local-div", "long_line", "after_lambda", "fault:idx-slice", "fault:idx-string", "fault:slice-bounds", "fault:div", "fault:mod", "fault:nil-set", "fault:nil-get", "fault:nil-method", "fault:nil-map", "fault:nil-func", "fault:panic", "fault:native", "fault:for-cond", "fault:idx-in-multiline-call", "multiline_call_active", "depth_10plus", "depth_20plus", "in_method", "in_loop", "in_switch", "entry_eval", "optimizer_off"},
+		ProbesWant: []string{"fault:helper-div", "fault:helper-attr", "fault:local-div", "long_line", "after_lambda", "fault:idx-slice", "fault:idx-string", "fault:slice-bounds", "fault:div", "fault:mod", "fault:nil-set", "fault:nil-get", "fault:nil-method", "fault:nil-map", "fault:nil-func", "fault:panic", "fault:native", "fault:for-cond", "fault:idx-in-multiline-call", "multiline_call_active", "depth_10plus", "depth_20plus", "in_method", "in_loop", "in_switch", "entry_eval", "optimizer_off"},
 	}
 }
 
@@ -497,7 +517,11 @@ func (crashpoint) Execute(plan any, keep bool) *core.Result {
 	var err error
 	if p.Entry == "eval" {
 		res.Counters.Inc("entry_eval")
-		_, err = run.h.Eval("stdin", fmt.Sprintf("import \"host\"; host.At(1); f0(%d)", p.Depth))
+		pre := ""
+		if p.Seed%2 == 0 {
+			pre = "func init() { host.At(0) }; " // top-level code after an init function is still top-level code
+		}
+		_, err = run.h.Eval("stdin", fmt.Sprintf("import \"host\"; %shost.At(1); f0(%d)", pre, p.Depth))
 	} else {
 		_, err = run.h.Call("main.f0", 1, goatlang.Int(p.Depth))
 	}
@@ -560,6 +584,9 @@ func (crashpoint) Execute(plan any, keep bool) *core.Result {
 	// expected chain from the shadow stack
 	var want []cpLoc
 	top := run.snap[len(run.snap)-1]
+	if helper := map[string]string{"helper-div": "main.hdiv", "helper-attr": "main.hattr"}[site.Kind]; helper != "" {
+		want = append(want, cpLoc{Func: helper, Line: rd.HelperLine[helper]})
+	}
 	want = append(want, cpLoc{Func: rd.Names[top.fn], Line: site.Line})
 	for i := len(run.snap) - 1; i >= 1; i-- {
 		fr := run.snap[i]
